@@ -59,7 +59,7 @@ impl CsrSegment {
         dst: InternalNodeId,
         rel: Option<RelTypeId>,
     ) -> Box<dyn Iterator<Item = EdgeKey> + '_> {
-        if dst < self.min_dst || dst > self.max_dst {
+        if self.in_edges.is_empty() || dst < self.min_dst || dst > self.max_dst {
             return Box::new(std::iter::empty());
         }
 
